@@ -6,6 +6,7 @@ import (
 	"regexp"
 	"strings"
 
+	"verif/engine/smt"
 	"verif/engine/sym"
 )
 
@@ -152,4 +153,106 @@ func isASCII(s string) bool {
 		}
 	}
 	return true
+}
+
+// SelfTestSubmatch compares the FindStringSubmatch / FindStringSubmatchIndex summaries with the real regexp
+// package: for sampled (pattern, subject) pairs the piece boundaries are left to the solver (as in a real run),
+// the model is read back and the groups and indices are compared.
+func (e *Exec) SelfTestSubmatch(corpus []string, patterns []string, seed int64, limit int) (checks int, mismatches []string) {
+	rng := rand.New(rand.NewSource(seed))
+	c := e.C
+	bad := func(what string, args ...interface{}) {
+		if len(mismatches) < 20 {
+			mismatches = append(mismatches, fmt.Sprintf(what, args...))
+		}
+	}
+	mk := func(s string) *Str {
+		cells := make([]*sym.Term, len(s)+2)
+		for i := range cells {
+			if i < len(s) {
+				cells[i] = c.BV(uint64(s[i]), 8)
+			} else {
+				cells[i] = c.BV(uint64('/'), 8)
+			}
+		}
+		return &Str{Base: &StrBase{Cells: cells, Name: "selftest"}, Off: e.i64(0), Len: e.i64(len(s)), Max: len(cells)}
+	}
+	var subjects []string
+	for _, s := range corpus {
+		if len(s) <= 12 && isASCII(s) {
+			subjects = append(subjects, s)
+		}
+	}
+	for n := 0; n < limit && len(subjects) > 0; n++ {
+		pat := patterns[rng.Intn(len(patterns))]
+		s := subjects[rng.Intn(len(subjects))]
+		if n%3 != 0 { // bias towards matching subjects: path-like strings
+			parts := []string{"/t", "/a", "/b", "/12", "/a b", "/x:go", "/", ""}
+			s = parts[rng.Intn(len(parts))] + parts[rng.Intn(len(parts))] + parts[rng.Intn(len(parts))]
+		}
+		re, err := regexp.Compile(pat)
+		if err != nil {
+			continue
+		}
+		sh := e.rxShapeOf(pat)
+		if sh.bad != "" || (!sh.anchoredEnd && !sh.anchoredStart) {
+			continue
+		}
+		p, err := e.rxCompile(pat)
+		if err != nil {
+			continue
+		}
+		ss := mk(s)
+		if !e.rxUnique(pat, sh, ss.Max) {
+			continue
+		}
+		want := re.FindStringSubmatch(s)
+		wantIdx := re.FindStringSubmatchIndex(s)
+		ev0 := sym.NewEvaluator(sym.Model{})
+		checks++
+		if got := ev0.Eval(e.rxMatch(p, ss)) == 1; got != (want != nil) {
+			bad("FindStringSubmatch(%q,%q): matched=%v want %v", pat, s, got, want != nil)
+			continue
+		}
+		if want == nil {
+			continue
+		}
+		start := e.i64(0)
+		if !sh.anchoredStart {
+			start = e.rxLeftmostStart(sh, ss)
+		}
+		bs := e.rxBoundaries(sh, ss, start, func(i int) *sym.Term {
+			e.fresh++
+			return c.Zext(c.Var(fmt.Sprintf("rxst!%d!%d", e.fresh, i), 8), 64)
+		})
+		e.S.Push()
+		e.S.Assert(e.rxValid(sh, ss, bs))
+		if e.S.Check() != smt.Sat {
+			bad("FindStringSubmatch(%q,%q): no valid boundary vector although the subject matches", pat, s)
+			e.S.Pop()
+			continue
+		}
+		m, err := e.S.Model()
+		e.S.Pop()
+		if err != nil {
+			bad("model: %v", err)
+			continue
+		}
+		ev := sym.NewEvaluator(m)
+		gotIdx := make([]int, 2*(sh.ncap+1))
+		for i := range gotIdx {
+			gotIdx[i] = -1
+		}
+		gotIdx[0], gotIdx[1] = int(int64(ev.Eval(bs[0]))), int(int64(ev.Eval(bs[len(bs)-1])))
+		for i, pc := range sh.pieces {
+			if pc.capture > 0 && ev.Eval(e.rxParticipates(pc, bs[i], bs[i+1])) == 1 {
+				gotIdx[2*pc.capture], gotIdx[2*pc.capture+1] = int(int64(ev.Eval(bs[i]))), int(int64(ev.Eval(bs[i+1])))
+			}
+		}
+		checks++
+		if fmt.Sprint(gotIdx) != fmt.Sprint(wantIdx) {
+			bad("FindStringSubmatchIndex(%q,%q)=%v want %v", pat, s, gotIdx, wantIdx)
+		}
+	}
+	return checks, mismatches
 }
